@@ -201,6 +201,7 @@ type Unit struct {
 	stale      []string
 	lastSortPi, lastSortInv string
 	elemWrite  int
+	captured   map[string]bool // symbols standing for captured (outer) variables
 }
 
 type recorder struct {
@@ -545,13 +546,17 @@ func (u *Unit) mergeStates(baseLen int, states []*State) *State {
 				all = false
 			}
 		}
-		if !all {
+		if !all && !strings.HasPrefix(k, "$tag:") {
 			delete(out.ghost, k)
 			continue
 		}
 		m := u.fresh("mg_"+k, srt)
 		for i, s := range live {
-			out.assume = append(out.assume, Imp(guards[i], Eq(m, s.ghost[k])))
+			v := s.ghost[k]
+			if v == nil {
+				v = False // a path tag that was never set on this path
+			}
+			out.assume = append(out.assume, Imp(guards[i], Eq(m, v)))
 		}
 		out.ghost[k] = m
 	}
